@@ -1,10 +1,6 @@
-from contracts import engine as E, handlers as H
+from contracts import handlers as H
+
 
 def build(P):
-    P.use_contracts("arn", "engine")
-    E.register_paths_abstract(P.reg)
-    E.register_notify_callees(P.reg)
-    H.externals(P.reg)
-    P.spec_module("specs/asl.py")
-    for k, f in H.ALL.items():
-        P.verify(E.NOTIFY + k, f())
+    H.setup(P)
+    H.add_handlers(P, None)
